@@ -264,6 +264,9 @@ def install(it):
         m.ns['maxsize'] = __import__('sys').maxsize
         from .models import HostNamespace
         m.ns['stdin'] = HostNamespace('stdin', {'encoding': 'utf-8'})
+        m.ns['stderr'] = HostNamespace('stderr', {})
+        m.ns['stdout'] = HostNamespace('stdout', {})
+        m.ns['argv'] = ['prog']
         m.ns['getdefaultencoding'] = B('sys.getdefaultencoding',
                                        lambda it, a, kw: 'utf-8')
         return m
